@@ -753,6 +753,14 @@ def m_slice_get(ex, a, callee, canon):
             return NONE()
         i = ex.concretize(idx.t, range(len(v.f)))
         return some(Ptr(v.f, i))
+    if isinstance(v, Bytes) and isinstance(idx, Int):
+        items = ex.seq_items(v.s)
+        if items is None:
+            raise Unsupported("slice::get on a byte string of symbolic length")
+        if not ex.decide(z3.ULT(idx.t, z3.BitVecVal(len(items), idx.t.size()))):
+            return NONE()
+        i = ex.concretize(idx.t, range(len(items)))
+        return some(Ptr([Int(items[i], "u8")], 0))
     raise Unsupported(f"slice::get on {v!r}")
 
 
@@ -1436,3 +1444,28 @@ def m_split_last(ex, a, callee, canon):
     if parts and z3.is_app(parts[-1]) and parts[-1].decl().kind() == z3.Z3_OP_SEQ_UNIT:
         return some(Struct("tuple", [Ptr([Int(parts[-1].arg(0), "u8")], 0), Ptr([Bytes(seq_concat(*parts[:-1]))], 0)]))
     raise Unsupported("split_last on an opaque byte string")
+
+
+# ------------------------------------------------------------------ checked integer arithmetic / shifts
+@model(r"^core::num::<impl (u8|u16|u32|u64|usize)>::checked_(add|sub)$")
+def m_checked_addsub(ex, a, callee, canon):
+    x, y = a
+    n = x.t.size()
+    if canon.endswith("checked_add"):
+        wide = z3.ZeroExt(1, x.t) + z3.ZeroExt(1, y.t)
+        if ex.decide(z3.Extract(n, n, wide) == 1):
+            return NONE()
+        return some(Int(z3.simplify(x.t + y.t), x.ty))
+    if ex.decide(z3.ULT(x.t, y.t)):
+        return NONE()
+    return some(Int(z3.simplify(x.t - y.t), x.ty))
+
+
+@model(r"^core::num::<impl (u8|u16|u32|u64|usize)>::checked_(shl|shr)$")
+def m_checked_shift(ex, a, callee, canon):
+    x, r = a
+    n = x.t.size()
+    if not ex.decide(z3.ULT(r.t, z3.BitVecVal(n, r.t.size()))):
+        return NONE()
+    amt = z3.Extract(n - 1, 0, r.t) if r.t.size() >= n else z3.ZeroExt(n - r.t.size(), r.t)
+    return some(Int(z3.simplify((x.t << amt) if canon.endswith("checked_shl") else z3.LShR(x.t, amt)), x.ty))
